@@ -190,14 +190,17 @@ def render_case(shape, prefix='c', kinds='$<>', label_len=1, distinct_labels=Tru
                 ds = desc_on.get(a, [])
                 nxt_is_ring = pi + 1 < len(pieces) and pieces[pi + 1][0] == 'ring'
                 lead = first_atom and opts.get('lead', False) and ds
+                osym = dict(ORDER_SYMBOL)
+                if opts.get('colon'):
+                    osym[1.5] = ':'       # the documented aromatic order symbol written out on cuts through aromatic bonds
                 if lead:
                     for (k, lab, order) in ds:
-                        items.extend(['['] + [k] + list(lab) + [']'] + list(ORDER_SYMBOL.get(order, '')))
+                        items.extend(['['] + [k] + list(lab) + [']'] + list(osym.get(order, '')))
                 items.extend(gm.atom_text(mol.atoms[a]))
                 if ds and not lead:
                     dtext = []
                     for (k, lab, order) in ds:
-                        dtext.extend(list(ORDER_SYMBOL.get(order, '')) + ['['] + [k] + list(lab) + [']'])
+                        dtext.extend(list(osym.get(order, '')) + ['['] + [k] + list(lab) + [']'])
                     if opts.get('after_ring', False) and nxt_is_ring:
                         pending = dtext
                     else:
